@@ -19,6 +19,7 @@ RULE = (
     "of the block in front (referent identity and at_end are compared)."
     " Second module in the IR as in C01: its symbols, proxies and entry point must be unchanged."
     " 8% of the modules are big-endian MIPS32 ELF (as in C01)."
+    " 1% of the modules have 30-89 code blocks."
 )
 ASSUMPTIONS = [
     "position = (section, byte offset counted over the section's original intervals in original order), so the end of one interval and the start of the next are the same place",
@@ -28,7 +29,7 @@ BUDGET = {"quick": (6000, 40), "thorough": (250000, 540)}
 REQUIRED_COUNTERS = ["applies", "labels_compared"]
 
 def gen_case(rng, tier, index):
-    return rwbase.gen_case(rng, tier, index, mips_p=0.08)
+    return rwbase.gen_case(rng, tier, index, mips_p=0.08, big_p=0.01)
 
 
 def run_case(case):
